@@ -13,7 +13,7 @@ use refimpl as r;
 use refimpl::{Mode, Poly, MODES};
 use serde_json::json;
 
-const RULE: &str = "valid tuples (pk, M, ctx, mode, sig): honest keys in all four modes, a tuple whose hint weight is within 2 of omega, a degenerate-key (t1=0) tuple with an empty hint; for each tuple EVERY single-bit flip of the signature, of the serialised public key, of the message and of the context is verified and must return false (the unmutated tuple must return true). Crate results equal to `true` are cross-checked against the reference; a 1% sample of rejections is cross-checked too. Exhaustive over bit positions per tuple, not over tuples. Non-trivial = distinct (tuple, field, bit) mutants evaluated.";
+const RULE: &str = "valid tuples (pk, M, ctx, mode, sig): honest keys in all four modes, a tuple whose hint weight is within 2 of omega, a degenerate-key (t1=0) tuple with an empty hint and one whose hints all sit in the first polynomial (repeated cumulative counts, indices 0 and 255); for each tuple EVERY single-bit flip of the signature, of the serialised public key, of the message and of the context is verified and must return false (the unmutated tuple must return true). Crate results equal to `true` are cross-checked against the reference; a 1% sample of rejections is cross-checked too. Exhaustive over bit positions per tuple, not over tuples. Non-trivial = distinct (tuple, field, bit) mutants evaluated.";
 
 struct Tuple {
     label: String,
@@ -87,7 +87,15 @@ fn tuples<S: PS>(ctx: &Ctx, acc: &mut Acc) -> Vec<Tuple> {
     let z: Vec<Poly> = (0..p.l).map(|_| core::array::from_fn(|_| g.range(-5, 5))).collect();
     let h = vec![r::ZERO; p.k];
     let sig = gen::forge_degenerate(p, &rho, &mp, &z, &h, None);
-    out.push(Tuple { label: "degenerate-key-empty-hint".into(), pk: gen::degenerate_pk(p, &rho), m, cx, mode, sig });
+    out.push(Tuple { label: "degenerate-key-empty-hint".into(), pk: gen::degenerate_pk(p, &rho), m: m.clone(), cx: cx.clone(), mode, sig });
+    // degenerate-key tuple whose hints all sit in the first polynomial: the later cumulative counts repeat
+    // (empty polynomials after a non-empty one), and index 0 / 255 are used
+    let mut h = vec![r::ZERO; p.k];
+    for j in [0usize, 1, 77, 254, 255] {
+        h[0][j] = 1;
+    }
+    let sig = gen::forge_degenerate(p, &rho, &mp, &z, &h, None);
+    out.push(Tuple { label: "degenerate-key-hints-in-first-poly".into(), pk: gen::degenerate_pk(p, &rho), m, cx, mode, sig });
     out
 }
 
